@@ -57,7 +57,7 @@ func pickSites(t *rapid.T, sites []Site, n int) []EditRef {
 		}
 		ok := true
 		for _, c := range chosen {
-			if conflict(c, s) {
+			if Conflict(c, s) {
 				ok = false
 			}
 		}
